@@ -1,13 +1,419 @@
 import NetVerif.Model.H2Client
-/-! # C18 — HTTP/2 client GOAWAY handling (first theorems; grown below) -/
+import NetVerif.Proofs.C17
+/-!
+# C18 — HTTP/2 client GOAWAY handling
+
+Part 1: the mechanism (`setGoAway` classification, `canRetryError` / `shouldRetryRequest`,
+the retry loop of `roundTripViaPool`, no new stream after GOAWAY for all histories).
+Part 2: soundness of the trace monitor `accepts18`.
+-/
 namespace NetVerif.Proofs.C18
 open NetVerif.Model.H2Client
+open NetVerif.Proofs.C17 (step run Act)
+
+/-! ## Part 1: mechanism -/
 
 /-- `setGoAway` leaves a stream alone exactly when the server's last-stream-id covers it. -/
 theorem classify_keep_iff (last code id : Nat) : classify last code id = .keep ↔ id ≤ last := by
   unfold classify
+  by_cases h1 : id ≤ last
+  · rw [if_pos h1]
+    exact ⟨fun _ => h1, fun _ => rfl⟩
+  · rw [if_neg h1]
+    by_cases h2 : id = 1 ∧ code ≠ 0
+    · rw [if_pos h2]
+      constructor
+      · intro h; cases h
+      · intro h; exact absurd h h1
+    · rw [if_neg h2]
+      constructor
+      · intro h; cases h
+      · intro h; exact absurd h h1
+
+theorem classify_failFirst_iff (last code id : Nat) :
+    classify last code id = .failFirst ↔ last < id ∧ id = 1 ∧ code ≠ 0 := by
+  unfold classify
+  by_cases h1 : id ≤ last
+  · rw [if_pos h1]
+    constructor
+    · intro h; cases h
+    · intro h; omega
+  · rw [if_neg h1]
+    by_cases h2 : id = 1 ∧ code ≠ 0
+    · rw [if_pos h2]
+      exact ⟨fun _ => ⟨by omega, h2⟩, fun _ => rfl⟩
+    · rw [if_neg h2]
+      constructor
+      · intro h; cases h
+      · intro h; exact absurd h.2 h2
+
+theorem classify_retryable_iff (last code id : Nat) :
+    classify last code id = .retryable ↔ last < id ∧ ¬(id = 1 ∧ code ≠ 0) := by
+  unfold classify
+  by_cases h1 : id ≤ last
+  · rw [if_pos h1]
+    constructor
+    · intro h; cases h
+    · intro h; omega
+  · rw [if_neg h1]
+    by_cases h2 : id = 1 ∧ code ≠ 0
+    · rw [if_pos h2]
+      constructor
+      · intro h; cases h
+      · intro h; exact absurd h2 h.2
+    · rw [if_neg h2]
+      exact ⟨fun _ => ⟨by omega, h2⟩, fun _ => rfl⟩
+
+/-- Every in-flight stream gets exactly one verdict: the verdict list of `setGoAway` is
+`cc.streams` itself, each paired with the value of the total function `classify`. -/
+theorem setGoAway_one_verdict_per_stream (c : CC) (last code : Nat) :
+    (c.setGoAway last code).2.map Prod.fst = c.streams ∧
+    ∀ p ∈ (c.setGoAway last code).2, p.2 = classify last (mergeCode c code) p.1 := by
+  constructor
+  · simp [CC.setGoAway, List.map_map, Function.comp_def]
+  · intro p hp
+    simp [CC.setGoAway] at hp
+    obtain ⟨id, _, rfl⟩ := hp
+    rfl
+
+/-- The literal statement of C18 for the streams above last-stream-id. -/
+def AllAboveLastRetryable : Prop :=
+  ∀ last code id : Nat, last < id → classify last code id = .retryable
+
+/-- It is false of the code as it is: stream 1 with a non-NO error code is failed, not retried
+(by design, see the comment in `setGoAway`). Witness: GOAWAY(last = 0, code = 2), stream 1. -/
+theorem full_false : ¬ AllAboveLastRetryable := by
+  intro h
+  have := h 0 2 1 (by omega)
+  simp [classify] at this
+
+/-- Outside that region the statement holds. -/
+theorem holds_partial (last code id : Nat) (h : last < id) (hx : ¬(id = 1 ∧ code ≠ 0)) :
+    classify last code id = .retryable :=
+  (classify_retryable_iff last code id).mpr ⟨h, hx⟩
+
+/-- `errClientConnGotGoAway` is retryable; the request is replayed unless it has a body that
+cannot be re-obtained. -/
+theorem gotGoAway_retry_iff (b : BodyK) : shouldRetry b .gotGoAway = true ↔ b ≠ .once := by
+  cases b <;> simp [shouldRetry, canRetryError]
+
+theorem unusable_always_retried (b : BodyK) : shouldRetry b .unusable = true := by
+  cases b <;> simp [shouldRetry, canRetryError]
+
+theorem other_never_retried (b : BodyK) : shouldRetry b .other = false := by
+  cases b <;> simp [shouldRetry, canRetryError]
+
+/-- The loop of `roundTripViaPool`: one attempt per element of `outs` (`none` = a response or
+a final error from the pool), continuing only after a retryable failure and `retry <= 6`.
+Returns the number of attempts made. -/
+def attempts (b : BodyK) : Nat → List (Option ErrK) → Nat
+  | _, [] => 0
+  | retry, o :: rest =>
+    1 + (match o with
+         | some e => if retry ≤ 6 ∧ shouldRetry b e = true then attempts b (retry + 1) rest else 0
+         | none => 0)
+
+def retryableCount (b : BodyK) (outs : List (Option ErrK)) : Nat :=
+  (outs.filter (fun o => match o with | some e => shouldRetry b e | none => false)).length
+
+/-- A request is sent at most once more per retryable failure ... -/
+theorem attempts_le_retryable (b : BodyK) (retry : Nat) (outs : List (Option ErrK)) :
+    attempts b retry outs ≤ 1 + retryableCount b outs := by
+  induction outs generalizing retry with
+  | nil => simp [attempts]
+  | cons o rest ih =>
+    simp only [attempts]
+    cases o with
+    | none => simp
+    | some e =>
+      by_cases h : retry ≤ 6 ∧ shouldRetry b e = true
+      · have ih' := ih (retry + 1)
+        have hf : retryableCount b (some e :: rest) = retryableCount b rest + 1 := by
+          simp [retryableCount, h.2]
+        dsimp only
+        rw [if_pos h, hf]
+        omega
+      · dsimp only
+        rw [if_neg h]
+        omega
+
+/-- ... and at most 8 times in all. -/
+theorem attempts_bounded (b : BodyK) (retry : Nat) (outs : List (Option ErrK)) :
+    attempts b retry outs ≤ 8 - retry ∨ attempts b retry outs ≤ 1 := by
+  induction outs generalizing retry with
+  | nil => right; simp [attempts]
+  | cons o rest ih =>
+    simp only [attempts]
+    cases o with
+    | none => right; simp
+    | some e =>
+      by_cases h : retry ≤ 6 ∧ shouldRetry b e = true
+      · simp only [h, and_self, if_true]
+        rcases ih (retry + 1) with h1 | h1
+        · left; omega
+        · left; omega
+      · right; simp [h]
+
+/-- After GOAWAY the connection opens no stream: `awaitOpenSlotForStreamLocked` never returns nil. -/
+theorem goaway_blocks_open (c : CC) (h : c.goAway = true) : step c .openStream = none := by
+  simp only [step]
   split
-  · simp [*]
-  · split <;> simp [*]
+  · rename_i hgo
+    exfalso
+    have hcl := C17.await_go_not_closed c hgo
+    unfold CC.await at hgo
+    simp [hcl] at hgo
+    split at hgo
+    · cases hgo
+    · rename_i hidle
+      simp at hidle
+      unfold CC.idleCanTake at hidle
+      simp [CC.isUsable, h, hcl] at hidle
+  · rfl
+
+theorem step_goAway_sticky (c c' : CC) (a : Act) (hs : step c a = some c') (h : c.goAway = true) :
+    c'.goAway = true := by
+  cases a <;> simp [step] at hs
+  case reserve => subst hs; unfold CC.reserve; split <;> simp [h]
+  case enter => subst hs; simpa [CC.decrReservation] using h
+  case release => subst hs; simpa [CC.decrReservation] using h
+  case openStream => obtain ⟨_, hs⟩ := hs; subst hs; simpa [CC.addStream] using h
+  case forget => subst hs; simpa [CC.forget] using h
+  case cancelReset id => subst hs; unfold CC.noteCancelReset CC.forget; split <;> simp [h]
+  case settings m =>
+    subst hs; unfold CC.settings
+    cases m with
+    | none => simp only; split <;> simp [h]
+    | some v => simp [h]
+  case pingAck => subst hs; unfold CC.pingAck; split <;> simp [h]
+  case frameRead => subst hs; simpa [CC.frameRead] using h
+  case goAway => subst hs; simp [CC.setGoAway]
+  case close => subst hs; simpa using h
+  case doNotReuse => subst hs; simpa using h
+
+/-- C18, first clause, for all histories: once GOAWAY has been processed, no stream is opened on
+that connection whatever happens afterwards (the log of opened IDs stays empty). -/
+theorem no_stream_after_goaway (c : CC) (h : c.goAway = true) (acts : List Act) (c' : CC)
+    (log : List Nat) (hr : run c acts = some (c', log)) : log = [] := by
+  induction acts generalizing c c' log with
+  | nil => simp [run] at hr; exact hr.2
+  | cons a as ih =>
+    simp only [run] at hr
+    split at hr
+    · cases hr
+    · rename_i c1 hs
+      split at hr
+      · cases hr
+      · rename_i c2 log2 hr2
+        have hg := step_goAway_sticky c c1 a hs h
+        have hl := ih c1 hg c2 log2 hr2
+        simp only [Option.some.injEq, Prod.mk.injEq] at hr
+        obtain ⟨_, rfl⟩ := hr
+        by_cases ha : a = .openStream
+        · subst ha
+          rw [goaway_blocks_open c h] at hs
+          cases hs
+        · simp [ha, hl]
+
+/-- ... in particular right after `setGoAway`. -/
+theorem no_stream_after_setGoAway (c : CC) (last code : Nat) (acts : List Act) (c' : CC)
+    (log : List Nat) (hr : run (c.setGoAway last code).1 acts = some (c', log)) : log = [] :=
+  no_stream_after_goaway _ (by simp [CC.setGoAway]) acts c' log hr
+
+/-- The pool never hands out a connection that has received GOAWAY (unless it is the closed,
+never-used kind that fails its one request without opening a stream). -/
+theorem goaway_not_selected (c : CC) (h : c.goAway = true) (hr : c.reserve.1 = true) :
+    c.nextID = 1 ∧ c.closed = true := by
+  unfold CC.reserve at hr
+  split at hr
+  · rename_i hc
+    unfold CC.idleCanTake at hc
+    simp [CC.isUsable, h] at hc
+    exact ⟨hc.2.1.1.1, hc.2.1.2⟩
+  · cases hr
+
+/-! Non-vacuity -/
+example : classify 3 0 5 = .retryable := by decide
+example : classify 3 0 3 = .keep := by decide
+example : classify 0 2 1 = .failFirst := by decide
+example : attempts .replayable 0 [some .gotGoAway, some .gotGoAway, none] = 3 := by decide
+example : attempts .once 0 [some .gotGoAway, none] = 1 := by decide
+
+/-! ## Part 2: the trace monitor -/
+
+/-- The property of a whole trace: every event passes `check18` in the state reached by the
+events before it. -/
+def Prop18 (strict : Bool) (tr : List Ev) : Prop :=
+  ∀ pre e post, tr = pre ++ e :: post → check18 (specState18 strict pre) e = true
+
+theorem run18_ok (s s' : S18) (tr : List Ev) (h : run18 s tr = .ok s') :
+    ∀ pre e post, tr = pre ++ e :: post → check18 (pre.foldl S18.upd s) e = true := by
+  induction tr generalizing s with
+  | nil => intro pre e post hp; simp at hp
+  | cons a as ih =>
+    simp only [run18] at h
+    split at h
+    · rename_i hc
+      intro pre e post hp
+      cases pre with
+      | nil =>
+        simp at hp
+        obtain ⟨rfl, _⟩ := hp
+        simpa using hc
+      | cons p ps =>
+        simp at hp
+        obtain ⟨rfl, rfl⟩ := hp
+        simpa using ih (s.upd a) h ps e post rfl
+    · cases h
+
+/-- Soundness: an accepted trace satisfies `Prop18`. -/
+theorem accepted18_prop (strict : Bool) (tr : List Ev) (h : accepts18 strict tr = true) :
+    Prop18 strict tr := by
+  unfold accepts18 at h
+  split at h
+  · rename_i s' hr
+    intro pre e post hp
+    simpa [specState18] using run18_ok _ s' tr hr pre e post hp
+  · cases h
+
+theorem fold_strict (s : S18) (tr : List Ev) : (tr.foldl S18.upd s).strict = s.strict := by
+  induction tr generalizing s with
+  | nil => rfl
+  | cons a as ih => simp [List.foldl_cons, ih, S18.upd]
+
+/-- The monitor's wire component is the specification-level wire state. -/
+theorem fold_w (s : S18) (tr : List Ev) (c : Nat) :
+    (tr.foldl S18.upd s).w c = tr.foldl (fun w e => w.upd c e) (s.w c) := by
+  induction tr generalizing s with
+  | nil => rfl
+  | cons a as ih => simp [List.foldl_cons, ih, S18.upd]
+
+theorem spec_w (strict : Bool) (tr : List Ev) (c : Nat) :
+    (specState18 strict tr).w c = wireState c tr := by
+  simp [specState18, wireState, fold_w]
+
+theorem upd_goneAway_sticky (w : WConn) (c : Nat) (e : Ev) (h : w.goneAway = true) :
+    (w.upd c e).goneAway = true := by
+  cases e <;> simp only [WConn.upd] <;> (try split) <;> simp_all
+
+theorem fold_goneAway_sticky (w : WConn) (c : Nat) (tr : List Ev) (h : w.goneAway = true) :
+    (tr.foldl (fun w e => w.upd c e) w).goneAway = true := by
+  induction tr generalizing w with
+  | nil => exact h
+  | cons a as ih => exact ih _ (upd_goneAway_sticky w c a h)
+
+theorem goneAway_of_mem (c last code : Nat) (tr : List Ev) (h : Ev.goaway c last code ∈ tr) :
+    (wireState c tr).goneAway = true := by
+  obtain ⟨pre, post, rfl⟩ := List.append_of_mem h
+  simp only [wireState, List.foldl_append, List.foldl_cons]
+  apply fold_goneAway_sticky
+  simp [WConn.upd]
+
+/-- C18, first clause on accepted traces: after GOAWAY on a connection no HEADERS opens a new
+stream on it ... -/
+theorem accepted18_no_stream_after_goaway (strict : Bool) (tr pre post : List Ev)
+    (c id r last code : Nat) (es : Bool) (h : accepts18 strict tr = true)
+    (hp : tr = pre ++ .hdr c id r es :: post) : Ev.goaway c last code ∉ pre := by
+  intro hm
+  have hc := accepted18_prop strict tr h pre _ post hp
+  have hg := goneAway_of_mem c last code pre hm
+  simp only [check18, wireCheck, Bool.and_eq_true, Bool.not_eq_true'] at hc
+  have := hc.1.2
+  rw [spec_w] at this
+  simp [hg] at this
+
+/-- ... and the pool does not select it. -/
+theorem accepted18_no_pick_after_goaway (strict : Bool) (tr pre post : List Ev)
+    (c r last code : Nat) (f : Bool) (h : accepts18 strict tr = true)
+    (hp : tr = pre ++ .pick r c f :: post) : Ev.goaway c last code ∉ pre := by
+  intro hm
+  have hc := accepted18_prop strict tr h pre _ post hp
+  have hg := goneAway_of_mem c last code pre hm
+  simp only [check18, wireCheck, Bool.and_eq_true, Bool.not_eq_true'] at hc
+  have := hc.1.2
+  rw [spec_w] at this
+  simp [hg] at this
+
+theorem bump1_conns (rs : Nat → RSt) (l : List Nat) (r : Nat) : (bump rs l r).conns = (rs r).conns := by
+  simp only [bump]
+  split <;> rfl
+
+/-- the connections recorded for a request only grow -/
+theorem upd_conns_mono (s : S18) (e : Ev) (r c : Nat) (h : c ∈ (s.rs r).conns) :
+    c ∈ ((s.upd e).rs r).conns := by
+  cases e <;> simp only [S18.upd, setAt] <;> (try split) <;> simp_all [bump1_conns]
+
+theorem fold_conns_mono (s : S18) (tr : List Ev) (r c : Nat) (h : c ∈ (s.rs r).conns) :
+    c ∈ ((tr.foldl S18.upd s).rs r).conns := by
+  induction tr generalizing s with
+  | nil => exact h
+  | cons a as ih => exact ih _ (upd_conns_mono s a r c h)
+
+/-- C18 on accepted traces: a request is never sent twice on the same connection. -/
+theorem accepted18_distinct_conns (strict : Bool) (tr pre mid post : List Ev)
+    (c id c' id' r : Nat) (es es' : Bool) (h : accepts18 strict tr = true)
+    (hp : tr = pre ++ .hdr c id r es :: (mid ++ .hdr c' id' r es' :: post)) : c ≠ c' := by
+  intro hcc
+  subst hcc
+  have hc := accepted18_prop strict tr h (pre ++ .hdr c id r es :: mid) (.hdr c id' r es') post (by simp [hp])
+  simp only [check18, Bool.and_eq_true, Bool.not_eq_true'] at hc
+  have hnot := hc.2
+  have hin : c ∈ ((specState18 strict (pre ++ .hdr c id r es :: mid)).rs r).conns := by
+    simp only [specState18, List.foldl_append, List.foldl_cons]
+    apply fold_conns_mono
+    simp [S18.upd, setAt]
+  simp [List.contains_eq_mem, hin] at hnot
+
+/-- C18 on accepted traces: the pool is asked for a connection for request `r` only while the
+request has a selection left: the first one, plus one per abort classified retryable for a
+replayable request, plus one per connection that went away under a queued request. -/
+theorem accepted18_pick_within_credits (strict : Bool) (tr pre post : List Ev) (r c : Nat) (f : Bool)
+    (h : accepts18 strict tr = true) (hp : tr = pre ++ .pick r c f :: post) :
+    ((specState18 strict pre).rs r).picks < ((specState18 strict pre).rs r).credits := by
+  have hc := accepted18_prop strict tr h pre _ post hp
+  simp only [check18, Bool.and_eq_true, decide_eq_true_eq] at hc
+  exact hc.2
+
+/-- C18 on accepted traces: at the end of every step nothing is owed — every stream a GOAWAY
+did not cover has been abandoned, every replayable request has been handed to the pool again,
+every other one has returned the error the classification prescribes. -/
+theorem accepted18_step_discharged (strict : Bool) (tr pre post : List Ev)
+    (h : accepts18 strict tr = true) (hp : tr = pre ++ .eol :: post) :
+    (specState18 strict pre).owe = [] := by
+  have hc := accepted18_prop strict tr h pre _ post hp
+  simpa [check18] using hc
+
+/-- C18 on accepted traces: a GOAWAY / connection error is returned by RoundTrip only when a
+GOAWAY or close classified the request that way (nothing fails silently for another reason). -/
+theorem accepted18_errors_explained (strict : Bool) (tr pre post : List Ev) (r : Nat) (k : DoneK)
+    (h : accepts18 strict tr = true) (hp : tr = pre ++ .done r k :: post) (hk : errKind k = true) :
+    Owe.fail r k ∈ (specState18 strict pre).owe := by
+  have hc := accepted18_prop strict tr h pre _ post hp
+  simp only [check18, hk, Bool.not_true, Bool.false_or] at hc
+  simpa [List.contains_eq_mem] using hc
+
+/-- C18 on accepted traces: streams covered by the GOAWAY of the current step are not reset. -/
+theorem accepted18_kept_not_reset (strict : Bool) (tr pre post : List Ev) (c id code : Nat)
+    (h : accepts18 strict tr = true) (hp : tr = pre ++ .crst c id code :: post) :
+    (c, id) ∉ (specState18 strict pre).keep := by
+  have hc := accepted18_prop strict tr h pre _ post hp
+  simpa [check18, List.contains_eq_mem] using hc
+
+/-! Non-vacuity: a GOAWAY that aborts one replayable and one non-replayable request. -/
+def demo18 : List Ev :=
+  [.req 0 .none, .req 1 .once, .pick 0 0 true, .hdr 0 1 0 true, .pick 1 0 false, .hdr 0 3 1 false, .eol,
+   .goaway 0 1 0, .crst 0 3 8, .done 1 .noReplay, .eol,
+   .goaway 0 0 0, .crst 0 1 8, .pick 0 1 true, .hdr 1 1 0 true, .eol]
+
+example : accepts18 false demo18 = true := by decide
+-- the aborted request is dropped (no new selection): rejected at the end of the step
+example : accepts18 false [.req 0 .none, .pick 0 0 true, .hdr 0 1 0 true, .eol,
+    .goaway 0 0 0, .crst 0 1 8, .eol] = false := by decide
+-- a stream is opened after GOAWAY: rejected
+example : accepts18 false [.req 0 .none, .req 1 .none, .pick 0 0 true, .hdr 0 1 0 true, .eol,
+    .goaway 0 1 0, .eol, .pick 1 0 false] = false := by decide
+-- replayed on the same connection: rejected
+example : accepts18 false [.req 0 .none, .pick 0 0 true, .hdr 0 1 0 true, .eol,
+    .srst 0 1 7, .pick 0 0 false, .hdr 0 3 0 true] = false := by decide
 
 end NetVerif.Proofs.C18
